@@ -20,6 +20,9 @@ def handle (line : String) : String :=
   | "world" :: rest => Drv.worldLine rest
   | "dictrt" :: rest => Drv.dictrtLine rest
   | "tree" :: rest => Drv.treeLine rest
+  | "cutline" :: rest => Drv.verbatimLine "cutline" rest
+  | "codespan" :: rest => Drv.verbatimLine "codespan" rest
+  | "hr" :: rest => Drv.verbatimLine "hr" rest
   | "blockloop" :: rest => Drv.blockLoopLine rest
   | "unescape" :: rest => Drv.unescapeLine rest
   | "inline" :: rest => Drv.inlineLine rest
